@@ -16,7 +16,7 @@ from . import c08
 
 def run(ctx):
     q = ctx.quick
-    per = 14 if q else 120
+    per = 28 if q else 120
     jobs = []
     cid = 0
     for cname in compobs.COMPILERS:
@@ -44,7 +44,7 @@ def run(ctx):
         return P
 
     for cname in compobs.COMPILERS:
-        for _ in range(max(3, per // 3)):
+        for _ in range(max(3, per // 2)):
             cid += 1
             jobs.append((cid, temporal_problem(), cname, False))
     # pipelines: ordered subsets (length 2-3) of the compilation kinds, on problems of the full grammar
